@@ -124,6 +124,19 @@ CHECKS = {
         "Hypothesis schedule/fault plans on a virtual clock with a plan-driven peer; log invariants (history oracle)",
         "DESIGN.md 4/C06",
     ),
+    "C16": (
+        "exploration",
+        "EZSP.write_config() runs for every protocol version 4..14 against a simulated NCP holding a configuration store; "
+        "Hypothesis draws the current value of every setting (below/equal/above the default, unreadable), an override set "
+        "from that version's voluptuous schema keys (in-range values, None, keys inside and outside the default list) and "
+        "per-setting rejection statuses. The oracle reads only the set frames the simulator saw: each ID at most once, "
+        "capacity settings (identified by name, not by the code's markers) never written below the reported value unless the "
+        "caller supplied them, caller values written exactly, nothing for disabled ones, packet-buffer count last, no "
+        "exception, and the same ID sequence as the all-accept twin run.",
+        "Simulator (vlib/simncp.py) answers with bellows' serializers; which settings are 'capacity' is a naming convention.",
+        "Hypothesis configuration generation against a stateful simulated NCP; frame-log invariants + metamorphic twin run",
+        "DESIGN.md 4/C16",
+    ),
 }
 
 NOT_YET = "check not built yet in this session (planned, see DESIGN.md section 4)"
